@@ -20,7 +20,7 @@ accepted only if an ordinary exhaustive search of the same class finds none.
 import pickle
 
 from ..clock import SimClock
-from ..core import Violation
+from ..core import Violation, pickle_roundtrip
 from ..ref import specval
 from ..rng import SimRandom
 from . import search_common as S
@@ -355,7 +355,7 @@ def execute(R, ctx):
                     elif op[0] == "has":
                         css.has_specification()
                     elif op[0] == "restart":
-                        css = pickle.loads(pickle.dumps(css))
+                        css = pickle_roundtrip(css, "C17")
                         ctx.fault("pickle_restart")
                     else:
                         state["budget"] = op[1]
